@@ -140,7 +140,7 @@ func Unmarshal(data []byte) (root *Node, err error) {
 				current, err = newNode(current, buf, Array, useKey())
 				buf.state = AR
 			case cm: /* , */
-				if current == nil {
+				if current == nil || current.ready() {
 					return nil, buf.errorSymbol()
 				}
 				if current.IsObject() {
